@@ -108,6 +108,54 @@ fn check_err(inp: &Inp, e: &PErr, nterms: usize) -> Result<(), (String, String)>
     Ok(())
 }
 
+/// Judge one parse result against the expectation of its input (fresh or reused parser).
+#[allow(clippy::too_many_arguments)]
+fn judge(st: &mut Stats, text: &str, spec: &crate::spec::GrammarSpec, algo: &str, nterms: usize, inp: &Inp, res: &Result<(), PErr>, reused: bool) -> Option<Outcome> {
+    let how = if reused { "reused-parser|" } else { "" };
+    let ctx = || {
+        format!(
+            "grammar:\n{text}\ninput: {:?}\ntokens: {:?}\nclass: {}{}",
+            inp.text,
+            inp.toks.iter().map(|t| spec.terms[*t].name.clone()).collect::<Vec<_>>(),
+            inp.class,
+            if reused { "\n(parser instance reused: all inputs of the case parsed in order by one instance)" } else { "" }
+        )
+    };
+    if !reused {
+        st.class(&format!("input-{}", inp.class));
+    }
+    match (res, inp.expect_err) {
+        (Ok(()), None) => {}
+        (Ok(()), Some(off)) => {
+            return Some(Outcome::fail(
+                format!("{how}accepted-non-sentence|{algo}|{}", inp.class),
+                format!("{}\nexpected an error at offset {off}", ctx()),
+            ))
+        }
+        (Err(e), None) => {
+            return Some(Outcome::fail(
+                format!("{how}sentence-rejected|{algo}"),
+                format!("{}\nerror: {:?} {}", ctx(), e.span, e.message),
+            ))
+        }
+        (Err(e), Some(off)) => {
+            if let Err((cls, msg)) = check_err(inp, e, nterms) {
+                return Some(Outcome::fail(
+                    format!("{how}{cls}|{algo}"),
+                    format!("{}\n{msg}\nerror: {:?} {}", ctx(), e.span, e.message),
+                ));
+            }
+            if !reused && off > 0 && inp.toks.len() >= 2 {
+                st.nontrivial(&format!("{text}\n{algo}\n{}", inp.text), || {
+                    json!({"grammar": text, "algo": algo, "input": inp.text, "class": inp.class,
+                           "error_offset": off, "message": e.message})
+                });
+            }
+        }
+    }
+    None
+}
+
 impl Prop for C12 {
     type Case = GCase;
     fn id(&self) -> &'static str {
@@ -219,41 +267,27 @@ impl Prop for C12 {
                         Err(p) => return panic_outcome("parse|GLR", &p),
                     }
                 };
-                let ctx = || {
-                    format!(
-                        "grammar:\n{text}\ninput: {:?}\ntokens: {:?}\nclass: {}",
-                        inp.text,
-                        inp.toks.iter().map(|t| spec.terms[*t].name.clone()).collect::<Vec<_>>(),
-                        inp.class
-                    )
+                if let Some(o) = judge(st, &text, spec, algo, nterms, inp, &res, false) {
+                    return o;
+                }
+            }
+            // the same inputs once more through ONE parser instance (valid and invalid
+            // interleaved): every result is judged exactly like that of a fresh parser
+            {
+                let texts: Vec<&str> = inputs.iter().map(|i| i.text.as_str()).collect();
+                let results: Vec<Result<Result<(), PErr>, crate::compile::PanicInfo>> = if algo == "LR" {
+                    dynp::lr_parse_session(&texts, RunOpts::default(), LR_STEPS).into_iter().map(|r| r.map(|x| x.map(|_| ()))).collect()
+                } else {
+                    dynp::glr_parse_session(&texts, RunOpts::default(), GLR_STEPS, false).into_iter().map(|r| r.map(|x| x.map(|_| ()))).collect()
                 };
-                st.class(&format!("input-{}", inp.class));
-                match (&res, inp.expect_err) {
-                    (Ok(()), None) => {}
-                    (Ok(()), Some(off)) => {
-                        return Outcome::fail(
-                            format!("accepted-non-sentence|{algo}|{}", inp.class),
-                            format!("{}\nexpected an error at offset {off}", ctx()),
-                        )
-                    }
-                    (Err(e), None) => {
-                        return Outcome::fail(
-                            format!("sentence-rejected|{algo}"),
-                            format!("{}\nerror: {:?} {}", ctx(), e.span, e.message),
-                        )
-                    }
-                    (Err(e), Some(off)) => {
-                        if let Err((cls, msg)) = check_err(inp, e, nterms) {
-                            return Outcome::fail(
-                                format!("{cls}|{algo}"),
-                                format!("{}\n{msg}\nerror: {:?} {}", ctx(), e.span, e.message),
-                            );
-                        }
-                        if off > 0 && inp.toks.len() >= 2 {
-                            st.nontrivial(&format!("{text}\n{algo}\n{}", inp.text), || {
-                                json!({"grammar": text, "algo": algo, "input": inp.text, "class": inp.class,
-                                       "error_offset": off, "message": e.message})
-                            });
+                for (k, r) in results.iter().enumerate() {
+                    st.sub();
+                    match r {
+                        Err(p) => return panic_outcome(&format!("reused-parser|parse|{algo}"), p),
+                        Ok(res) => {
+                            if let Some(o) = judge(st, &text, spec, algo, nterms, &inputs[k], res, true) {
+                                return o;
+                            }
                         }
                     }
                 }
